@@ -4,7 +4,8 @@ id="$1"; shift
 cd /verif
 git -C /repo diff --quiet || { echo "/repo has uncommitted changes"; exit 9; }
 git -C /repo apply "/verif/seeded/$id/patch.diff" || { echo "patch does not apply"; exit 9; }
-trap 'git -C /repo checkout -- .' EXIT INT TERM
+rm -rf .scratch/evidence.bak; cp -r evidence .scratch/evidence.bak
+trap 'git -C /repo checkout -- .; rm -rf evidence; mv .scratch/evidence.bak evidence' EXIT INT TERM
 for p in "$@"; do
   ./check "$p" --tier quick > ".scratch/try_${id}_${p}.out" 2>&1; rc=$?
   echo "== $id on $p: exit=$rc"; grep -E '^(VIOLATION|UNDECIDED|CHECKER-ERROR|  obligation)' ".scratch/try_${id}_${p}.out" | cut -c1-300 | head -8
